@@ -307,7 +307,8 @@ def try_defn(d):
         L.add_model(Model(name=d["model"], primary_key=(["id", "id2"] if d["composite"] else "id"),
                           dimensions=[Dimension(name=d["dim"], type="categorical", sql="s0", supported_granularities=d.get("sg_cat")),
                                       Dimension(name="t_" + d["dim"][:6], type="time", granularity="day", sql="ts", supported_granularities=d.get("sg_time"))],
-                          metrics=mets, segments=[Segment(name=d["seg"], sql="{model}.s0 = 'a'")], **src))
+                          # a second segment names the model's own DIMENSION (whose name is not a column of the source) instead of the raw column
+                          metrics=mets, segments=[Segment(name=d["seg"], sql="{model}.s0 = 'a'")] + ([Segment(name="zz_by_dim", sql="{model}.%s = 'a'" % d["dim"])] if d["dim"] not in COLS else []), **src))
     except Exception as e:
         return False, {"add_model": "%s: %s" % (type(e).__name__, str(e)[:100])}
     if d.get("graph_metric") == "after":
@@ -319,7 +320,10 @@ def try_defn(d):
     m = d["model"]
     qs = {"dim": dict(dimensions=["%s.%s" % (m, d["dim"])]), "meas": dict(metrics=["%s.%s" % (m, d["meas"])]), "count": dict(metrics=["%s.%s" % (m, d["cnt"])]),
           "ratio": dict(metrics=["%s.%s" % (m, d["rat"])]), "derived": dict(metrics=["%s.%s" % (m, d["der"])]),
-          "segment": dict(metrics=["%s.%s" % (m, d["cnt"])], segments=["%s.%s" % (m, d["seg"])])}
+          "segment": dict(metrics=["%s.%s" % (m, d["cnt"])], segments=["%s.%s" % (m, d["seg"])]),
+          }
+    if d["dim"] not in COLS:          # (a dimension named like a raw column is the column when a segment names it: no separate question)
+        qs["segment_by_dimension"] = dict(metrics=["%s.%s" % (m, d["cnt"])], segments=["%s.zz_by_dim" % m])
     for gname in (d.get("sg_time") or ("hour", "day", "week", "month", "quarter", "year")):
         qs["time__" + gname] = dict(dimensions=["%s.t_%s__%s" % (m, d["dim"][:6], gname)])
     if isinstance(d.get("fill"), str):
